@@ -233,8 +233,46 @@ func c12Selector(c *Case) {
 	}
 }
 
+// faults in the very first tokens of the program (byte offset 0, line 1), reached only on a later input element after
+// other statements have run: the position is still that of the failing expression
+func c12First(c *Case) {
+	heads := []struct {
+		expr string // the program starts with this pattern expression; it fails on the second element
+		in   string
+	}{
+		{"$.n > 1", `[{"n": 2}, {"n": [1]}]`}, {"$[0] < 2", `[[1], [[1]]]`}, {"$ ~ $.p", `["a", {"p": "("}]`}, {"$.s ~ $.p", `[{"s": "a", "p": "a"}, {"s": "a", "p": "[z"}]`},
+		{"$ % $ == 0", `[1, 0]`}, {"$.a.b.c(1)", `[{"a": {"b": 1}}, {"a": {"b": {"c": 1}}}]`}, {"[$][0].n > 1", `[{"n": 2}, {"n": {}}]`}, {"-$.n < $.m", `[{"n": 1, "m": 2}, {"n": 1, "m": []}]`},
+		{"$.n() || 1", `[{"x": 1}, {"n": 3}]`}, {"!$.f(1)", `[{"x": 1}, {"f": "s"}]`},
+	}
+	bodies := []string{" {\n  print 'hit'\n}\n", "\n{ seen = seen + 1 }\n", " { print 'first', $ }\n{ print 'second rule' }\nEND { print 'end' }\n"}
+	for _, h := range heads {
+		for bi, body := range bodies {
+			text := h.expr + body
+			lib := RunLib(text, []InFile{{Name: "in.json", Data: []byte(h.in)}}, nil, RunOpts{Budget: 100000})
+			key := fmt.Sprintf("first-token:%s:%d", h.expr, bi)
+			c.NonTrivial(key)
+			c.Count("faults_at_the_start_of_the_program")
+			rp := map[string]any{"program": text, "input": h.in, "line": lib.Line, "col": lib.Col, "srcline": lib.SrcLine, "msg": lib.Msg}
+			switch {
+			case lib.Class != "runtime":
+				c.Inconclusive("fault-not-reported-as-runtime")
+			case lib.Line != 1 || lib.SrcLine != strings.SplitN(text, "\n", 2)[0]:
+				c.Violation(fmt.Sprintf("%s: a fault in the first expression of the program (line 1) is reported on line %d, quoting %q (%s)", key, lib.Line, clip(lib.SrcLine, 60), lib.Msg), nil, rp)
+			case lib.Col < 0 || lib.Col >= len(h.expr):
+				c.Violation(fmt.Sprintf("%s: column %d lies outside the failing expression (columns 0-%d) (%s)", key, lib.Col, len(h.expr)-1, lib.Msg), nil, rp)
+			default:
+				c.Held()
+			}
+		}
+	}
+}
+
 func c12Run(c *Case) {
 	rng := c.Rng
+	if c.Idx == 0 {
+		c12First(c)
+		return
+	}
 	if c.Idx%12 == 7 {
 		c12Selector(c)
 		return
@@ -343,7 +381,7 @@ func c12Run(c *Case) {
 func init() {
 	register(&Prop{
 		ID: "C12", Level: "exploration",
-		Rule: "sampled: a runtime fault (36 kinds x 35 positions x 3 contexts, as in C11) or a syntax splice (22 kinds) planted into a program with filler functions/rules before and after, laid out at random over many lines (blank lines, comment lines and trailing comments with non-ASCII text, CRLF, tabs, statements joined by ';', multi-byte string literals directly before the fault on the same line or on earlier lines); the planted construct is kept on one line and its byte span is known from the renderer. Level 1 for every error: 1 <= Line <= #lines and SrcLine is exactly line Line of the text (lines split on \\n only). Level 2: Line is the fault's line and Col lies inside the span (illegal bytes and misplaced return/break/continue: exactly on the token). A sample is re-run through the binary and the three stderr lines are re-parsed. Non-trivial = >= 3 lines with the fault not on line 1, or a multi-byte character before the fault on its line; distinct by program text.",
+		Rule: "sampled: a runtime fault (42 kinds x 38 positions x 3 contexts, as in C11) or a syntax splice (22 kinds) planted into a program with filler functions/rules before and after, laid out at random over many lines (blank lines, comment lines and trailing comments with non-ASCII text, CRLF, tabs, statements joined by ';', multi-byte string literals directly before the fault on the same line or on earlier lines); the planted construct is kept on one line and its byte span is known from the renderer. Level 1 for every error: 1 <= Line <= #lines and SrcLine is exactly line Line of the text (lines split on \\n only). Level 2: Line is the fault's line and Col lies inside the span (illegal bytes and misplaced return/break/continue: exactly on the token). 10 faults in the first expression of the program (offset 0) that occur only on the second input element, with 3 continuations: line 1, column inside the expression. A sample is re-run through the binary and the three stderr lines are re-parsed. Non-trivial = >= 3 lines with the fault not on line 1, or a multi-byte character before the fault on its line; distinct by program text.",
 		NumCases: func(tier string) int {
 			if tier == "thorough" {
 				return 2000000
